@@ -1,0 +1,22 @@
+//go:build verif
+
+package api
+
+import (
+	"net/http"
+)
+
+// VerifBridgeCall (build tag "verif" only) runs callAPI for a bridged GET request with the given
+// path while a capturing handler is installed as the API server's handler. It returns the URL path
+// the handler was called with (empty if it was not called) and callAPI's error.
+// Not safe for concurrent use with a running API server.
+func VerifBridgeCall(path string) (seenURLPath string, err error) {
+	prev := server.Handler
+	server.Handler = http.HandlerFunc(func(w http.ResponseWriter, r *http.Request) {
+		seenURLPath = r.URL.Path
+		w.WriteHeader(http.StatusOK)
+	})
+	defer func() { server.Handler = prev }()
+	_, err = callAPI(&EndpointBridgeRequest{Method: http.MethodGet, Path: path})
+	return seenURLPath, err
+}
